@@ -11,6 +11,8 @@
      - the lower cap bound is intf[0] and a cap that is not strictly above the interface
        of a wire-fencing ensemble is rejected;
      - setup_config does not index the (empty) default engine list when quantis is on.
+   setup_config's defaults are modelled one statement at a time, in program order, with
+   check_config last (validation follows normalisation; see [normalise], [setup_config]).
    Everything else is the code as it is, statement by statement, including the exceptions
    Python would raise (IndexError / KeyError are explicit results, not swept away).
 
@@ -228,26 +230,68 @@ Definition check_config (c : config) : result :=
   check_lm1 c (stage2 c).
 
 (* ------------------------------------------------------------------ setup_config defaults *)
+
+(* The tail of setup_config, statement by statement and IN THE ORDER OF THE CODE: six
+   assignments that fill in defaults (one of them, under quantis, substitutes the engine of
+   [0-]), and only then check_config, on the configuration as those statements left it.  Each
+   statement is one function below; [normalise] is their composition in program order. *)
+
+(* has_ens_engs = config["simulation"].get("ensemble_engines", False)
+   (absent and the empty list are both falsy) *)
 Definition has_ens_engs (c : config) : bool :=
   match ens_engs c with Some (_ :: _) => true | _ => false end.
 
+Definition with_ens_engs (c : config) (ee : list (list name)) : config :=
+  mkC (interfaces c) (workers c) (moves c) (cap c) (quantis c) (lm1 c) (accept_all c) (seed c)
+      (Some ee) (sections c).
+
+(* 1.  if not has_ens_engs:
+           ens_engs = [["engine"] for _ in interfaces]
+           config["simulation"]["ensemble_engines"] = ens_engs *)
+Definition step_engines (c : config) : config :=
+  if has_ens_engs c then c
+  else with_ens_engs c (map (fun _ => [name_engine]) (interfaces c)).
+
+(* 2.  if "seed" not in config["simulation"]: config["simulation"]["seed"] = 0 *)
+Definition step_seed (c : config) : config :=
+  mkC (interfaces c) (workers c) (moves c) (cap c) (quantis c) (lm1 c) (accept_all c)
+      (Some (match seed c with Some s => s | None => 0%Z end)) (ens_engs c) (sections c).
+
+(* 3.  quantis = tis_set.get("quantis", False); tis_set["quantis"] = quantis *)
+Definition step_quantis (c : config) : config :=
+  mkC (interfaces c) (workers c) (moves c) (cap c) (Some (quantis_val c)) (lm1 c) (accept_all c)
+      (seed c) (ens_engs c) (sections c).
+
+(* 4.  l_1 = tis_set.get("lambda_minus_one", False); tis_set["lambda_minus_one"] = l_1 *)
+Definition step_lm1 (c : config) : config :=
+  mkC (interfaces c) (workers c) (moves c) (cap c) (quantis c) (Some (lm1_val c)) (accept_all c)
+      (seed c) (ens_engs c) (sections c).
+
+(* 5.  if quantis and not has_ens_engs and ens_engs:
+           config["simulation"]["ensemble_engines"][0] = ["engine0"]
+       [has] is the value has_ens_engs had BEFORE statement 1 (a local variable of the code);
+       "and ens_engs": the default list is empty when there are no interfaces *)
+Definition step_engine0 (has : bool) (c : config) : config :=
+  if quantis_val c && negb has then
+    match ens_engs c with
+    | Some (_ :: r) => with_ens_engs c ([name_engine0] :: r)
+    | _ => c
+    end
+  else c.
+
+(* 6.  accept_all = tis_set.get("accept_all", False); tis_set["accept_all"] = accept_all *)
+Definition step_accept_all (c : config) : config :=
+  mkC (interfaces c) (workers c) (moves c) (cap c) (quantis c) (lm1 c)
+      (Some (match accept_all c with Some b => b | None => false end))
+      (seed c) (ens_engs c) (sections c).
+
 Definition normalise (c : config) : config :=
   let has := has_ens_engs c in
-  let q := quantis_val c in
-  let ee0 := if has then match ens_engs c with Some l => l | None => [] end
-             else map (fun _ => [name_engine]) (interfaces c) in
-  let ee1 := if q && negb has
-             then match ee0 with [] => [] | _ :: r => [name_engine0] :: r end
-             else ee0 in
-  mkC (interfaces c) (workers c) (moves c) (cap c)
-      (Some q)
-      (Some (lm1_val c))
-      (Some (match accept_all c with Some b => b | None => false end))
-      (Some (match seed c with Some s => s | None => 0%Z end))
-      (Some ee1)
-      (sections c).
+  step_accept_all (step_engine0 has (step_lm1 (step_quantis (step_seed (step_engines c))))).
 
-(* setup_config = fill in the defaults, then check *)
+(* 7.  check_config(config); return config
+   setup_config = fill in the defaults (statements 1-6), THEN check what they produced: the
+   engine "engine0" that statement 5 gives to [0-] is seen by the engine-defined test *)
 Definition setup_config (c : config) : config * result :=
   let c' := normalise c in (c', check_config c').
 
